@@ -64,6 +64,24 @@ def r1_r2(F, R):
     if cnt_lo is None or cnt_lo < 1:
         R.bad("C07-R1", b.path + ":count", site, "cannot derive count >= 1 from the writers of DualAverage.count (only constants >= 1 and += 1 allowed)")
         return
+    # a fresh (or reset) estimator reports the step size it was started from until its first update: outside advance() the averaged iterate is
+    # written with the same value as the current iterate (ln(initial_step)); with another start value a chain that samples before any update
+    # (num_tune = 0, or a restart on the last tuning draw) uses a step size nobody chose
+    by_fn = {}
+    for fld in ("log_step", "log_step_adapted"):
+        for (wb, wbb, wst, wv, how) in K.field_writers(F, adt, fld):
+            if wb.path == b.path or (wv[0] == "call" and path_ends(wv[1], "Clone::clone")):
+                continue
+            by_fn.setdefault(wb.path, {})[fld] = (wv, wst)
+    for fp, d_ in sorted(by_fn.items()):
+        k_ = "%s:start-value" % fp
+        if set(d_) != {"log_step", "log_step_adapted"}:
+            R.bad("C07-R2", k_, fp, "%s writes %s but not both iterates" % (fp.split("::")[-1], sorted(d_)))
+        elif vt_str(d_["log_step"][0]) != vt_str(d_["log_step_adapted"][0]):
+            R.bad("C07-R2", k_, "%s @%s" % (fp, loc(d_["log_step_adapted"][1]["span"])), "the averaged iterate starts at %s but the current iterate at %s: until the first "
+                  "update the estimator reports a step size that is not the one it was started from" % (vt_str(d_["log_step_adapted"][0])[:60], vt_str(d_["log_step"][0])[:60]))
+        else:
+            R.ok("C07-R2", k_, fp, "both iterates start at %s" % vt_str(d_["log_step"][0])[:60])
     params = K.param_bindings(b)
     pid = {n: i for (i, n) in params}
     if "accept_stat" not in pid or "target" not in pid:
